@@ -8,6 +8,7 @@ import (
 	"sync"
 	"sync/atomic"
 	"testing/synctest"
+	"verif/sim/prng"
 )
 
 type OpKind int
@@ -189,6 +190,7 @@ type Status struct {
 // Poll waits for quiescence and reports which tasks can be released.
 func (s *Sched) Poll() Status {
 	synctest.Wait()
+	prng.Heartbeat.Add(1)
 	s.mu.Lock()
 	defer s.mu.Unlock()
 	var st Status
